@@ -393,7 +393,8 @@ def contact_material_params(
       max_geom_friction[2],
     )
 
-    if geom_solref[solref_id, g1][0] > 0.0 and geom_solref[solref_id, g2][0] > 0.0:
+    # different priorities: mix is 1 or 0 and selects the solref of the higher-priority geom
+    if p1 != p2 or (geom_solref[solref_id, g1][0] > 0.0 and geom_solref[solref_id, g2][0] > 0.0):
       solref = mix * geom_solref[solref_id, g1] + (1.0 - mix) * geom_solref[solref_id, g2]
     else:
       solref = wp.min(geom_solref[solref_id, g1], geom_solref[solref_id, g2])
